@@ -283,6 +283,12 @@ def handle : List String → String
       let i := cvcImage r.2
       s!"{if r.1 then "parsed" else "badfmt"} {toHex i.authority} {toHex i.holder} {toHex i.pubkey} {i.pubkey_len} {toHex i.from_} {toHex i.until_} {toHex i.hat_eid} {toHex i.hat_esign} {toHex i.sig} {i.sig_len}"
     | none => "bad-op"
+  | ["cvckimg", x, kl] => match parseHex x, kl.toNat? with
+    | some x, some kl =>
+      if kl ≠ 0 ∧ kl ≠ 48 ∧ kl ≠ 64 ∧ kl ≠ 96 ∧ kl ≠ 128 then "bad-op" else
+      let i := cvcImage (cvcUnwrapKS x kl)
+      s!"- {toHex i.authority} {toHex i.holder} {toHex i.pubkey} {i.pubkey_len} {toHex i.from_} {toHex i.until_} {toHex i.hat_eid} {toHex i.hat_esign} {toHex i.sig} {i.sig_len}"
+    | _, _ => "bad-op"
   | _ => "bad-op"
 
 end Bee2V.C08.Drv
